@@ -1,5 +1,8 @@
 import LinOp.Core.Parse
 import LinOp.C14.Model
+import LinOp.C14.Shape
+import LinOp.C14.Bcast
+import LinOp.C14.KernelB
 import LinOp.Generated.C14Classes
 /-! Line-protocol driver for the C14 model (layout table = the one generated from today's source). -/
 open LinOp LinOp.C14 LinOp.Parse
@@ -126,6 +129,19 @@ def stepLine (dflt : DT) (line : String) : DT × String :=
     let out : Option String :=
       match cmd with
       | "construct" => (pCall.run rest).map fun (r, _) => showRes (construct cfg r.1 r.2.1 r.2.2)
+      | "constructS" => (pCall.run rest).map fun (r, _) => showRes (constructS cfg r.1 r.2.1 r.2.2)
+      | "constructB" => (pCall.run rest).map fun (r, _) => showRes (constructK cfg r.1 r.2.1 r.2.2)
+      | "constructB2" =>
+        (pCall.run rest).map fun (r, _) =>
+          match constructK cfg r.1 r.2.1 r.2.2 with
+          | some (.node c a dn d nkw _) => showRes (constructK cfg c a (kwOf dn d nkw))
+          | _ => "NONE"
+      | "constructS2" =>
+        -- constructor applied to what the constructor stored (`cls(*_args, **_kwargs)`), shape pre-pass included
+        (pCall.run rest).map fun (r, _) =>
+          match constructS cfg r.1 r.2.1 r.2.2 with
+          | some (.node c a dn d nkw _) => showRes (constructS cfg c a (kwOf dn d nkw))
+          | _ => "NONE"
       | "setrg" =>
         (match rest with
          | b :: r => (pOp.run r).map fun (o, _) => showOp (setRG cfg (b = "1") o)
